@@ -53,3 +53,26 @@ Definition case_init (c : case) : state :=
 Definition model_obs (pre : pre_obs) (post : post_obs) (c : case) : list Z :=
   flat_state (case_init c) ++ scan pre post (case_init c) (c_ops c).
 Definition case_ok_with (pre : pre_obs) (post : post_obs) (c : case) : bool := zlist_eqb (model_obs pre post c) (c_expect c).
+
+(* ---------- direct calls of the math functions (driver cases with a "math" list) ---------- *)
+Inductive mcall :=
+| MAmount0 (liq a b : Z) (ru : bool) | MAmount1 (liq a b : Z) (ru : bool)
+| MNext0In (cur liq36 amt36 : Z) | MNext0Out (cur liq36 amt18 : Z) | MNext1In (cur liq amt36 : Z) | MNext1Out (cur liq amt36 : Z)
+| MLiq0 (amt a b : Z) | MLiq1 (amt a b : Z) | MLiqFrom (s a b amt0 amt1 : Z)
+| MTick2Sqrt (t : Z) | MSqrt2Tick (s : Z).
+Definition mcall_eval (m : mcall) : option Z :=
+  match m with
+  | MAmount0 liq a b ru => calc_amount0_delta liq a b ru
+  | MAmount1 liq a b ru => calc_amount1_delta liq a b ru
+  | MNext0In cur l x => next_sqrt_price_amount0_in_round_up cur l x
+  | MNext0Out cur l x => next_sqrt_price_amount0_out_round_up cur l x
+  | MNext1In cur l x => next_sqrt_price_amount1_in_round_down cur l x
+  | MNext1Out cur l x => next_sqrt_price_amount1_out_round_down cur l x
+  | MLiq0 x a b => liquidity0 x a b
+  | MLiq1 x a b => liquidity1 x a b
+  | MLiqFrom s a b x y => get_liquidity_from_amounts s a b x y
+  | MTick2Sqrt t => tick_to_sqrt_price t
+  | MSqrt2Tick s => calculate_sqrt_price_to_tick s
+  end.
+Definition mcall_ok (me : mcall * list Z) : bool :=
+  zlist_eqb (match mcall_eval (fst me) with Some x => [1; x] | None => [0; 0] end) (snd me).
